@@ -503,8 +503,14 @@ def report_failure(ctx, runner, ops, first, origin):
 def run_batch(args):
     name, text, cbin, mbin, tmo = args
     rc_c, c_out = vlib.sh([str(cbin)], stdin=text, timeout=tmo, env={"ASAN_OPTIONS": "detect_leaks=0"})
+    if mbin is None:
+        return name, rc_c, c_out, 0, "", ""
     rc_m, m_out, m_err = vlib.sh2([str(mbin)], stdin=text, timeout=tmo)
     return name, rc_c, c_out, rc_m, m_out, m_err
+
+
+def unpacked_wanted(name):
+    return name in ("corpus", "directed", "random.0", "ins6") or re.match(r"perm[1-5]$|shape6\.", name) is not None
 
 
 def run(ctx):
@@ -527,6 +533,15 @@ def run(ctx):
     ml = ctx.extract("C02/Extract.v", ["C02/extracted/rbt.ml", "C02/extracted/rbt.mli"])
     mbin = ctx.ocaml_build("rbt_mdrv", [ml[1], ml[0], HARN / "rbt_mdrv.ml"])
     runner = Runner(ctx, cbin, mbin)
+    # second configuration of the same source: separate parent / color fields (the #else branches of rbt.c,
+    # selected by A_SIZE_POINTER <= 1; a_uptr stays 64 bit)
+    cfg1 = ctx.build / "cfg_unpacked.h"
+    txt1 = ctx.cfg_header().read_text().replace("#define A_SIZE_POINTER 8", "#define A_SIZE_POINTER 1")
+    if not cfg1.exists() or cfg1.read_text() != txt1:
+        cfg1.write_text(txt1)
+    cbin1 = ctx.cc("rbt_drv_unpacked", [HARN / "rbt_drv.c"], repo_srcs=["rbt.c"], mode="asan",
+                   defines=['A_HAVE_H="%s"' % cfg1])
+    runner1 = Runner(ctx, cbin1, mbin)
 
     batches = build_batches(ctx, mbin)
     ctx.log("generated %d batches, %d cases" % (len(batches), sum(len(c) for _, c in batches)))
@@ -535,7 +550,8 @@ def run(ctx):
         text = "".join(fmt_case(j, ops) for j, ops in enumerate(cs))
         jobs.append((name, text, cbin, mbin, 45 if ctx.quick else 240))
     tags, totals = {}, {"NONTRIVIAL": 0, "CASES": 0, "OPS": 0, "MAXN": 0}
-    suspects = []           # (origin, ops) of cases on which C and model disagree
+    suspects = []           # (origin, ops, runner) of cases on which C and model disagree
+    m_keep = {}
     bydict = dict(batches)
     with ThreadPoolExecutor(max_workers=min(vlib.NPROC, 12)) as ex:
         for name, rc_c, c_out, rc_m, m_out, m_err in ex.map(run_batch, jobs):
@@ -548,6 +564,8 @@ def run(ctx):
             if rc_m != 0:
                 ctx.tie_broken("model driver failed on batch %s (rc %d): %s" % (name, rc_m, m_err[-300:]))
                 continue
+            if unpacked_wanted(name):
+                m_keep[name] = m_out
             if rc_c == 0 and c_out == m_out:
                 continue
             cc, mc = split_cases(c_out), split_cases(m_out)
@@ -562,7 +580,26 @@ def run(ctx):
                               (mc[j0][k] if bad and k is not None and k < len(mc[j0]) else "<missing>")[:160]))
             cs = bydict[name]
             for j in bad[:40]:
-                suspects.append(("batch %s case %d" % (name, j), cs[j]))
+                suspects.append(("batch %s case %d" % (name, j), cs[j], runner))
+
+    # the unpacked configuration against the same model output, on a subset of the batches
+    jobs1 = [(name, text, cbin1, None, tmo) for (name, text, _, _, tmo) in jobs if name in m_keep]
+    n_unpacked = 0
+    with ThreadPoolExecutor(max_workers=min(vlib.NPROC, 12)) as ex:
+        for name, rc_c, c_out, _, _, _ in ex.map(run_batch, jobs1):
+            m_out = m_keep[name]
+            n_unpacked += m_out.count("\n") - m_out.count("\nH ") - (1 if m_out.startswith("H ") else 0)
+            if rc_c == 0 and c_out == m_out:
+                continue
+            cc, mc = split_cases(c_out), split_cases(m_out)
+            bad = [j for j in range(len(mc)) if j >= len(cc) or cc[j] != mc[j]]
+            if rc_c != 0 and cc:
+                bad = sorted(set(bad + [len(cc) - 1]))
+            ctx.tie_broken("correspondence rbt C(unpacked configuration)-vs-model: batch %s, %d of %d cases differ (C exit status %d)"
+                           % (name, len(bad), len(mc), rc_c))
+            for j in bad[:40]:
+                suspects.append(("unpacked configuration, batch %s case %d" % (name, j), bydict[name][j], runner1))
+    ctx.cov["evaluations_unpacked_configuration"] = n_unpacked
 
     ctx.count(evaluations=totals["OPS"], nontrivial=totals["NONTRIVIAL"])
     ctx.cov["rule"] = ("evaluations = operations whose complete post-state (return value, root, every node's left/right/"
@@ -608,16 +645,16 @@ def run(ctx):
     kinds, checked = set(), 0
     import time
     t_stop = time.time() + (60 if ctx.quick else 240)
-    for origin, ops in suspects + pool:
+    for origin, ops, rn in suspects + [(o, c, runner) for o, c in pool] + [(o + " (unpacked configuration)", c, runner1) for o, c in pool[:25]]:
         if time.time() > t_stop and (kinds or not ctx.broken_ties):
             break
         if not well_formed(ops):
             continue
-        f = runner.fails(ops)
+        f = rn.fails(ops)
         checked += 1
         if f is not None and f[1] not in kinds:
             kinds.add(f[1])
-            kinds.add(report_failure(ctx, runner, ops, f, origin))
+            kinds.add(report_failure(ctx, rn, ops, f, origin))
             if len(kinds) >= 3:
                 break
     ctx.cov["oracle_cases_checked"] = checked
